@@ -187,12 +187,20 @@ pub fn gen_program(r: &mut Rng, with_actor: bool) -> (Env, Option<T>) {
     let mut map: HashMap<String, String> = HashMap::new();
     for (n, _) in &e0 { let i = r.below(pool.len() as u64) as usize; map.insert(n.clone(), pool.remove(i).to_string()); }
     let f = |s: &str| map.get(s).cloned().unwrap_or(s.to_string());
-    let env: Env = e0.iter().map(|(n, t)| (f(n), sprinkle_names(r, &t.rename(&f)))).collect();
+    let mut env: Env = e0.iter().map(|(n, t)| (f(n), sprinkle_names(r, &t.rename(&f)))).collect();
     let names: Vec<String> = env.iter().map(|d| d.0.clone()).collect();
     let actor = if with_actor {
         let s0 = gen_serv(r, &names, 2, &cfg); let s = sprinkle_names(r, &s0);
-        // sometimes through a definition, sometimes a service constructor
-        Some(match r.below(4) { 0 => T::Class(vec![gen_type(r, &names, 1, &cfg)], Box::new(s)), _ => s })
+        // the service inline, or given by a definition (whose name may be a reserved word of a target language)
+        let body = if !pool.is_empty() && r.coin(1, 3) {
+            let i = r.below(pool.len() as u64) as usize; let n = pool.remove(i).to_string();
+            env.push((n.clone(), s)); T::var(&n)
+        } else { s };
+        // sometimes a service constructor, with no, one or two init arguments
+        Some(match r.below(4) {
+            0 => { let k = r.below(3) as usize; T::Class((0..k).map(|_| gen_type(r, &names, 1, &cfg)).collect(), Box::new(body)) }
+            _ => body,
+        })
     } else { None };
     (env, actor)
 }
